@@ -637,6 +637,18 @@ func c01DecoderLoops(c *Ctx, reach map[*ssa.Function]bool) {
 					}
 					continue
 				}
+				// `case valInteger, valEnum: &valInt{tag: vtag}` – every way into the arm compares the tag with a positive constant
+				if subj, ks, okC := caseConstsInto(st.Block()); okC && subj == st.Val {
+					pos := true
+					for _, k := range ks {
+						if k <= 0 {
+							pos = false
+						}
+					}
+					if pos {
+						continue
+					}
+				}
 				pr := zone.New(fn)
 				if ok2, _ := pr.ProveGE(st.Val, 1, st); !ok2 {
 					tagPositive = false
